@@ -28,6 +28,8 @@ def run(ck):
     U = repo.find_class("Units")
     fc = repo.find_function("Permeance.convert")
     ck.analysed_function(fc)
+    from ..purity import purity
+    purity(ck, repo, [fc])
     # unit names from the Units class itself
     names = {}
     for k, v in U.class_attrs.items():
